@@ -147,9 +147,27 @@ def gen_world(rng):
         # every setup gets the same class list (the acceptable configuration), perturbed later by the history
         k = rng.randint(1, 2)
         cl = [rng.choice(["FDD", "EFDD", "SSIcov", "SSIdat", "pLSCF", "FSDD"]) for _ in range(k)]
+        # near-miss configurations: everything acceptable except one aspect of one setup
+        variant = rng.choice(["ok", "ok", "related_class", "related_class", "swapped", "missing", "other_class"])
+        victim = rng.randrange(len(w["setups"]))
+        w["poser_variant"] = [variant, victim]
+        related = {"FDD": ["EFDD", "FSDD"], "EFDD": ["FDD", "FSDD"], "FSDD": ["EFDD", "FDD"],
+                   "SSIcov": ["SSIdat"], "SSIdat": ["SSIcov"], "pLSCF": ["SSIcov"]}
         for si in range(len(w["setups"])):
-            for j, c in enumerate(cl):
-                algs.append({"cls": c, "name": f"{c}_{j}", "home": si, "params": gen_params(rng, c, nmin, cmin)})
+            mine = list(enumerate(cl))
+            if si == victim:
+                if variant == "related_class":
+                    j = rng.randrange(k)
+                    mine[j] = (j, rng.choice(related[cl[j]]))
+                elif variant == "other_class":
+                    j = rng.randrange(k)
+                    mine[j] = (j, rng.choice([c for c in SINGLE if c != cl[j]]))
+                elif variant == "swapped" and k == 2:
+                    mine.reverse()
+                elif variant == "missing" and k == 2:
+                    mine = mine[:1]
+            for j, c in mine:
+                algs.append({"cls": c, "name": f"a{j}", "home": si, "params": gen_params(rng, c, nmin, cmin)})
         # a spare algorithm of another class to perturb one setup with
         c = rng.choice(SINGLE)
         algs.append({"cls": c, "name": "spare", "home": rng.randrange(len(w["setups"])), "params": gen_params(rng, c, nmin, cmin)})
@@ -159,6 +177,28 @@ def gen_world(rng):
             c = rng.choice(names)
             a = {"cls": c, "name": f"{c}_{j}", "home": rng.randrange(len(w["setups"])),
                  "params": gen_params(rng, c, nmin, cmin)}
+            twins = [x for x in algs if x["params"] is not None]
+            if twins and rng.random() < 0.4:
+                # a near twin of an earlier algorithm: same setup and parameters except exactly one field
+                # (anything cached or shared under too coarse a key collides here)
+                t = rng.choice(twins)
+                fam = lambda n: "SSI" if n.startswith("SSI") else "pLSCF" if n.startswith("pLSCF") else "FDD"  # noqa: E731
+                same = [n for n in names if fam(n) == fam(t["cls"])]
+                c = rng.choice(same)
+                p = copy.deepcopy(t["params"])
+                alt = gen_params(rng, c, nmin, cmin)
+                keys = sorted(k for k in p if k in alt and k not in ("hc", "ordmin", "step") and alt[k] != p[k])
+                if keys:
+                    kk = rng.choice(keys)
+                    p[kk] = alt[kk]
+                if not c.startswith("SSIcov"):
+                    for drop in ("calc_unc", "nb"):
+                        p.pop(drop, None)
+                    if p.get("method") in ("cov_R", "cov_mm"):
+                        p.pop("method")
+                if c.endswith("_MS"):
+                    p.pop("ref_ind", None)
+                a = {"cls": c, "name": f"{c}_{j}", "home": t["home"], "params": p}
             if rng.random() < 0.12:
                 a["params"] = None  # constructed without run parameters: the gate must hold
             if rng.random() < 0.06 and a["params"] is not None:
